@@ -226,16 +226,22 @@ def emu_cases(draw):
     share = draw(st.booleans())
     streams = []
     offsets = {}
+    decided = set()
     tid = 10
     marks = {"0": {"title": "dye", "chan_type": "single"}}
-    base = 10 ** 6
+    # "far": hosts whose own clocks are hours apart and only meet through the offset table
+    far = draw(st.integers(0, 3)) == 0
+    base = 10 ** 14 if far else 10 ** 6
+    HOUR = 3600 * 10 ** 9
     scale = draw(st.sampled_from([1, 1, 1, 2 ** 31 + 3, 5 * 10 ** 9]))   # seconds apart: differences beyond 32 bits
     samepid = draw(st.booleans())
     for li in range(nlooms):
         host = hosts[0] if (share and li == 1) else hosts[li]
         lname = "%s.%d" % (host, li)
-        if host not in offsets and draw(st.integers(0, 3)) != 0:
-            offsets[host] = draw(st.sampled_from([0, -40, 40, -5000, 5000, 123456, -7]))
+        if host not in decided and draw(st.integers(0, 3)) != 0:
+            offsets[host] = draw(st.sampled_from([0, -40, 40, -5000, 5000, 123456, -7] if not far else
+                                                 [2 * HOUR, -2 * HOUR, 5 * HOUR + 17, -3 * HOUR - 1, HOUR + 1, 40]))
+        decided.add(host)       # one decision per host, also when two looms share it
         nth = draw(st.integers(1, 3))
         if samepid:
             tid = 10        # the same pid/tid numbers appear in every loom (processes of different nodes)
@@ -262,7 +268,8 @@ def emu_cases(draw):
                         "path": draw(st.sampled_from(["aux/empty", "loom.%s/aux" % streams[0]["loom"], "zzz"])),
                         "extra": {"ovni.part": "aux"}})
     order = list(draw(st.permutations(list(range(len(streams))))))
-    use_offsets = (offsets or None) if draw(st.integers(0, 4)) != 0 else None
+    # (without the table the far hosts would really be hours apart, which the emulator refuses by design)
+    use_offsets = (offsets or None) if (far or draw(st.integers(0, 4)) != 0) else None
     return {"streams": streams, "offsets": use_offsets, "mkorder": order}
 
 
@@ -337,7 +344,8 @@ def run_emu(case, ctx):
     reorder = bool(case.get("offsets")) and any(v != 0 for v in case["offsets"].values())
     return {"nt": tie or reorder, "cls": ["emu:looms=%d" % len({s["loom"] for s in case["streams"]}),
                                             "emu:ties" if tie else "emu:noties",
-                                            "emu:offsets" if case.get("offsets") else "emu:nooffsets"]}
+                                            "emu:offsets" if case.get("offsets") else "emu:nooffsets"] +
+                                           (["emu:hosts-hours-apart"] if case.get("offsets") and max(case["offsets"].values()) - min(list(case["offsets"].values()) + [0]) > 3600 * 10 ** 9 else [])}
 
 
 def parts(tier):
